@@ -17,6 +17,7 @@ func c04Opts(i int) lib.GenOpts {
 	opt.EmptyLeafLists = i%4 == 0
 	opt.Density = 0.7
 	opt.ZeroLenBinary = true
+	opt.EmptyLists = i%5 < 2
 	return opt
 }
 
@@ -45,6 +46,9 @@ func sharedClass(loc string) string {
 	}
 	if kind == "struct" {
 		typ = "struct"
+	}
+	if kind == "map" {
+		return "map" // one class for all keyed lists
 	}
 	if strings.Contains(loc, "{key}") {
 		return "map-key-pointer"
@@ -84,14 +88,31 @@ func runC04(r *lib.Run) {
 			if i < 2 {
 				r.Sample(map[string]interface{}{"cfg": cfg.Name, "leaves": len(o.Leaves), "mem_cells": len(lib.Mem(s))})
 			}
-			// MergeStructs: result vs both inputs. b is built from disjoint parts so that the merge succeeds often.
-			a := lib.NewGen(cfg, r.Seed, i, c04Opts(i)).Tree()
-			b := cfg.NewRoot()
-			if i%2 == 0 {
-				b = c05Subset(cfg, r.Seed, i, c04Opts(i))
+			// MergeStructs: result vs both inputs. The second tree is built from
+			// parts of the first so that the merge succeeds often; both argument
+			// orders and every merge option are used.
+			mk := func() (ygot.GoStruct, ygot.GoStruct) {
+				x := lib.NewGen(cfg, r.Seed, i, c04Opts(i)).Tree()
+				y := cfg.NewRoot()
+				if i%2 == 0 {
+					y = c05Subset(cfg, r.Seed, i, c04Opts(i))
+				}
+				if i%4 >= 2 {
+					return y, x
+				}
+				return x, y
 			}
+			var mopts []ygot.MergeOpt
+			mname := "plain"
+			switch i % 3 {
+			case 1:
+				mopts, mname = []ygot.MergeOpt{&ygot.MergeEmptyMaps{}}, "empty-maps"
+			case 2:
+				mopts, mname = []ygot.MergeOpt{&ygot.MergeOverwriteExistingFields{}, &ygot.MergeEmptyMaps{}}, "overwrite+empty-maps"
+			}
+			a, b := mk()
 			var m ygot.GoStruct
-			if r.Guard("MergeStructs", w(map[string]interface{}{}), func() { m, err = ygot.MergeStructs(a, b) }) {
+			if r.Guard("MergeStructs", w(map[string]interface{}{"opts": mname}), func() { m, err = ygot.MergeStructs(a, b, mopts...) }) {
 				continue
 			}
 			if err != nil {
@@ -99,17 +120,18 @@ func runC04(r *lib.Run) {
 				continue
 			}
 			r.Hit("merge-ok")
+			r.Hit("merge-opts:" + mname)
 			c04Independent(r, cfg, "MergeStructs:a", a, m, false, w)
 			// fresh result for the second input (the first check scribbled on it)
-			a2 := lib.NewGen(cfg, r.Seed, i, c04Opts(i)).Tree()
+			a2, b2 := mk()
 			var m2 ygot.GoStruct
-			if r.Guard("MergeStructs", w(map[string]interface{}{}), func() { m2, err = ygot.MergeStructs(a2, b) }) || err != nil {
+			if r.Guard("MergeStructs", w(map[string]interface{}{"opts": mname}), func() { m2, err = ygot.MergeStructs(a2, b2, mopts...) }) || err != nil {
 				continue
 			}
-			c04Independent(r, cfg, "MergeStructs:b", b, m2, false, w)
+			c04Independent(r, cfg, "MergeStructs:b", b2, m2, false, w)
 		}
 	}
-	r.RequireCov("DeepCopy:disjoint", "DeepCopy:scribble-copy", "DeepCopy:scribble-orig", "merge-ok", "tag:unkeyed", "tag:ordered-list")
+	r.RequireCov("DeepCopy:disjoint", "DeepCopy:scribble-copy", "DeepCopy:scribble-orig", "merge-ok", "merge-opts:plain", "merge-opts:empty-maps", "merge-opts:overwrite+empty-maps", "tag:unkeyed", "tag:ordered-list", "tag:empty-list")
 }
 
 // c04Independent checks equality (if eq), structural disjointness and
